@@ -348,6 +348,18 @@ func (ts *TermStore) Ite(c, a, b *Term) *Term {
 		if a.IsFalse() && b.IsTrue() {
 			return ts.Not(c)
 		}
+		if a.IsFalse() {
+			return ts.And(ts.Not(c), b)
+		}
+		if b.IsFalse() {
+			return ts.And(c, a)
+		}
+		if a.IsTrue() {
+			return ts.Or(c, b)
+		}
+		if b.IsTrue() {
+			return ts.Or(ts.Not(c), a)
+		}
 	}
 	// ite(c, a, ite(c, x, b)) = ite(c, a, b)
 	if b.kind == kApp && b.op == "ite" && b.args[0] == c {
